@@ -1,11 +1,154 @@
 /-
-  Driver/OpsSplineSM.lean — driver ops of the Spline state-machine unit (C12) (stub).
+  Driver/OpsSplineSM.lean — driver ops of the Spline state-machine unit (C12).
+
+  One request line = one whole SCRIPT (an operation sequence on a register file of splines):
+
+    spl_script <grp> f64 <K> <(K+1)² words: cumulative basis, row-major> { ; <stmt> }*
+
+  statements (registers are `r<n>`; every operation writes a NEW or overwritten register `dst`):
+    empty dst ga | ctor_V dst T V ga | ctor_vs dst T V ga | cv dst v T ga | cvgoal dst gb T ga
+    fixedcubic dst gb va vb T ga | concat_local dst a b | concat_global dst a b
+    crop dst a ta tb <0|1> | make_local dst a | copy dst a
+  probes (each appends one group of words to the reply, groups separated by ` ; `):
+    eval a t  → g vel acc | t_max a | start a | end a | size a | arclength a t
+  `V` = K control velocities (K·dof words, velocity by velocity), group elements = `rep` words.
+  Reply: `w* { ; w* }*` or `ERR msg`.
 -/
 import SmoothModel
+import SmoothModel.Spline
 import Driver.Ops
 
-namespace Drv
+open Scalar Lin
 
-def runSplineSM (_op _grp _prec : String) (_args : Array String) : Option String := none
+namespace Drv
+namespace SplSM
+
+abbrev Spl (L : LieModel Float) := SplineSM.Spline Float (Vec Float L.rep) (Vec Float L.dof)
+
+structure St (L : LieModel Float) where
+  regs : List (Nat × Spl L) := []
+  out : Array String := #[]
+
+def regOf (s : String) : Except String Nat :=
+  match s.toList with
+  | 'r' :: ds => if ds.all Char.isDigit && !ds.isEmpty then .ok (String.ofList ds).toNat! else .error s!"bad-register {s}"
+  | _ => .error s!"bad-register {s}"
+
+def getReg {L : LieModel Float} (st : St L) (r : Nat) : Except String (Spl L) :=
+  match st.regs.find? (fun p => p.1 == r) with
+  | some p => .ok p.2
+  | none => .error s!"unset-register r{r}"
+
+def setReg {L : LieModel Float} (st : St L) (r : Nat) (s : Spl L) : St L :=
+  { st with regs := (r, s) :: st.regs.filter (fun p => p.1 != r) }
+
+def words {n : Nat} (v : Vec Float n) : String := " ".intercalate ((toArray v).toList.map Bits.toHex)
+
+def emit {L : LieModel Float} (st : St L) (s : String) : St L := { st with out := st.out.push s }
+
+def nums (toks : List String) : Array Float := (toks.map (Bits.ofHex (α := Float))).toArray
+
+def needN (a : Array Float) (n : Nat) (what : String) : Except String Unit :=
+  if a.size = n then .ok () else .error s!"arity {what}: got {a.size} want {n}"
+
+/-- K control velocities from `K·dof` words -/
+def readV (L : LieModel Float) (K : Nat) (a : Array Float) (off : Nat) : List (Vec Float L.dof) :=
+  (List.range K).map (fun j => memoV (ofArray L.dof a (off + j * L.dof)))
+
+def step (L : LieModel Float) (K : Nat) (C : SplineSM.Ker Float (Vec Float L.rep) (Vec Float L.dof))
+    (st : St L) (stmt : List String) : Except String (St L) := do
+  let rep := L.rep
+  let dof := L.dof
+  match stmt with
+  | [] => return st
+  | "empty" :: d :: r =>
+    let d ← regOf d; let a := nums r; needN a rep "empty"
+    return setReg st d (SplineSM.empty (memoV (ofArray rep a)))
+  | "ctor_V" :: d :: r =>
+    let d ← regOf d; let a := nums r; needN a (1 + K * dof + rep) "ctor_V"
+    return setReg st d (SplineSM.ctor C (g0 a 0) (readV L K a 1) (memoV (ofArray rep a (1 + K * dof))))
+  | "ctor_vs" :: d :: r =>
+    let d ← regOf d; let a := nums r; needN a (1 + K * dof + rep) "ctor_vs"
+    return setReg st d (SplineSM.ctorVs C (g0 a 0) (readV L K a 1) (memoV (ofArray rep a (1 + K * dof))))
+  | "cv" :: d :: r =>
+    let d ← regOf d; let a := nums r; needN a (dof + 1 + rep) "cv"
+    return setReg st d (SplineSM.constantVelocity C (memoV (ofArray dof a)) (g0 a dof) (memoV (ofArray rep a (dof + 1))))
+  | "cvgoal" :: d :: r =>
+    let d ← regOf d; let a := nums r; needN a (rep + 1 + rep) "cvgoal"
+    return setReg st d (SplineSM.constantVelocityGoal C (memoV (ofArray rep a)) (g0 a rep) (memoV (ofArray rep a (rep + 1))))
+  | "fixedcubic" :: d :: r =>
+    let d ← regOf d; let a := nums r; needN a (rep + 2 * dof + 1 + rep) "fixedcubic"
+    if K != 3 then throw "fixedcubic needs K=3"
+    return setReg st d (SplineSM.fixedCubic C (memoV (ofArray rep a)) (memoV (ofArray dof a rep))
+      (memoV (ofArray dof a (rep + dof))) (g0 a (rep + 2 * dof)) (memoV (ofArray rep a (rep + 2 * dof + 1))))
+  | ["concat_local", d, x, y] =>
+    let d ← regOf d; let x ← getReg st (← regOf x); let y ← getReg st (← regOf y)
+    return setReg st d (SplineSM.concatLocal C x y)
+  | ["concat_global", d, x, y] =>
+    let d ← regOf d; let x ← getReg st (← regOf x); let y ← getReg st (← regOf y)
+    return setReg st d (SplineSM.concatGlobal x y)
+  | ["crop", d, x, ta, tb, loc] =>
+    let d ← regOf d; let x ← getReg st (← regOf x)
+    return setReg st d (SplineSM.crop C x (Bits.ofHex ta) (Bits.ofHex tb) (loc == "1"))
+  | ["make_local", d, x] =>
+    let d ← regOf d; let x ← getReg st (← regOf x)
+    return setReg st d (SplineSM.makeLocal C x)
+  | ["copy", d, x] =>
+    let d ← regOf d; let x ← getReg st (← regOf x)
+    return setReg st d x
+  | ["eval", x, t] =>
+    let x ← getReg st (← regOf x)
+    let r := SplineSM.eval C x (Bits.ofHex t)
+    return emit st (words r.1 ++ " " ++ words r.2.1 ++ " " ++ words r.2.2)
+  | ["t_max", x] =>
+    let x ← getReg st (← regOf x)
+    return emit st (Bits.toHex (SplineSM.tMax x))
+  | ["start", x] =>
+    let x ← getReg st (← regOf x)
+    return emit st (words (SplineSM.start x))
+  | ["end", x] =>
+    let x ← getReg st (← regOf x)
+    return emit st (words (SplineSM.endG x))
+  | ["size", x] =>
+    let x ← getReg st (← regOf x)
+    return emit st (Bits.toHex (Float.ofNat (SplineSM.size x)))
+  | ["arclength", x, t] =>
+    let x ← getReg st (← regOf x)
+    if K != 3 then throw "arclength needs K=3"
+    return emit st (words (SplineSM.arclength C x (Bits.ofHex t)))
+  | op :: _ => throw s!"bad-stmt {op}"
+
+/-- split a token list at `;` -/
+def splitStmts (toks : List String) : List (List String) :=
+  let (cur, acc) := toks.foldl (fun (p : List String × List (List String)) t =>
+    if t == ";" then ([], p.1.reverse :: p.2) else (t :: p.1, p.2)) ([], [])
+  (cur.reverse :: acc).reverse.filter (fun s => !s.isEmpty)
+
+def runScript (grp : String) (args : Array String) : String :=
+  match groupOf (α := Float) grp with
+  | none => s!"ERR unknown-group {grp}"
+  | some L =>
+    match args.toList with
+    | [] => "ERR no-K"
+    | k :: rest =>
+      let K := k.toNat!
+      if K == 0 || K > 8 then "ERR bad-K" else
+      let nB := (K + 1) * (K + 1)
+      let bw := (rest.take nB)
+      if bw.length != nB then "ERR short-basis" else
+      let B : Mat Float (K + 1) (K + 1) := memoM (matOfArray (K + 1) (K + 1) (nums bw))
+      let C := SplineSM.kerOf L K B
+      let stmts := splitStmts (rest.drop nB)
+      let res := stmts.foldlM (step L K C) ({} : St L)
+      match res with
+      | .ok st => " ; ".intercalate st.out.toList
+      | .error e => "ERR " ++ e
+
+end SplSM
+
+def runSplineSM (op grp prec : String) (args : Array String) : Option String :=
+  if op == "spl_script" then
+    if prec == "f64" then some (SplSM.runScript grp args) else some "ERR spl_script is f64 only"
+  else none
 
 end Drv
